@@ -37,7 +37,7 @@ def adt_bodies(facts, adt):
         if b.derived or b.kind == 'Closure':
             continue
         if b.impl_self == adt and (b.impl_trait is None or b.impl_trait.startswith('crdts::')):
-            out.append(b)
+            out.append(facts._v(b))
     return out
 
 
@@ -321,7 +321,38 @@ def rm_call(ctx):
         rc = Reach(facts, body, Evaluator(facts, bool_atom=discr_atom_of_param(2), assumption={'variant': vn.index('Rm')}))
         props = ['C08', EL[inst]]
         if body.uid in rm_uids:
-            ctx.ok(inst, body, 'the remove routine is inline in apply', props=props, nontrivial=False)
+            # the remove routine is written inline in apply (or seen through the helper-inlining view): the clock it
+            # decides on / subtracts and the elements it ranges over must be the op's own fields
+            r = roles(facts, adt)
+            found = []
+            Reach(facts, body, Evaluator(facts, classify=defer_classifier(found, r['clock'])))
+            es = [e for e in _rm_elem_sites(facts, it, r, () if inst == 'orswot' else ('clock',)) if e[0] in rc.reachable]
+
+            def op_field(t, clock):
+                pp = param_path(t)
+                if not (pp and pp[0] == 2 and pp[1] and pp[1][-1].startswith('Rm.')):
+                    return False
+                return (pp[1][-1] == 'Rm.clock') == clock
+            ok = any(op_field(x, True) for x in found) and bool(es)
+            why = 'the inline remove routine does not decide on the op\'s clock'
+            for bb, key, x in es:
+                src = as_item(key)
+                if not op_field(x, True):
+                    ok, why = False, 'the clock subtracted from the elements (%s) is not the op\'s clock' % fmt(x, 3)
+                    continue
+                whole = src is not None
+                while whole:
+                    base, kind, clo = iter_source(src)
+                    if clo or set(iter_adaptors(src)) & LOSSY_ADAPTORS:
+                        whole = False
+                    elif is_call(drop_lv(base), 'collect') and drop_lv(base)[2]:
+                        src = drop_lv(base)[2][0]  # re-collected into another container first
+                    else:
+                        whole = op_field(base, False)
+                        break
+                if not whole:
+                    ok, why = False, 'the inline remove routine does not range over all of the op\'s elements'
+            ctx.check(ok, inst, body, 'the remove routine is inline in apply and works on (op elements, op clock)', why, props=props)
             continue
         good = []
         why = 'the Rm arm never calls the remove routine'
